@@ -22,6 +22,8 @@ struct Rf { right: i32, rows: u8, r#ref: bool, a_r: i32 }
 enum Ev { Rect { right: i32, radius: i32 } }
 #[derive(Serialize, Deserialize, PartialEq, Debug, Clone)]
 enum E { U, N(i32), T(i32, i32), S { x: i32 } }
+// (untagged enums are a serde representation attribute, not one of the data-model categories the crate documents: they are outside the
+// type family C18 quantifies over - `#nil` read as an untagged unit payload does not read back from its serialization `()`)
 
 fn sym(s: &str) -> Value { Value::symbol(s) }
 fn list(v: Vec<Value>) -> Value { Value::list(v) }
@@ -60,7 +62,7 @@ fn shapes() -> Vec<(&'static str, Value, Value)> {
 
 fn cases14(_ob: &str) -> Vec<String> {
     let mut out: Vec<String> = (0..shapes().len()).map(|i| format!("shape:{}", i)).collect();
-    for i in 0..26 { out.push(format!("alt:{}", i)); }
+    for i in 0..32 { out.push(format!("alt:{}", i)); }
     out
 }
 fn data_err<T: std::fmt::Debug>(r: Result<T, serde_lexpr::Error>, what: &str) -> Option<String> {
@@ -95,6 +97,12 @@ fn check14_inner(case: &str) -> Option<String> {
             23 => data_err(from_value::<Option<Option<i32>>>(&list(vec![Value::Null, Value::from(5)])), "(() 5) as Option<Option<i32>>"),
             24 => { match from_value::<Option<i32>>(&list(vec![Value::from(1)])) { Ok(Some(1)) => None, r => Some(format!("(1) as Option<i32>: {:?}", r.map_err(|e| e.to_string()))) } }
             25 => { match to_value(&0i32) { Ok(v) if v == Value::from(0u64) && v.as_u64() == Some(0) && v == lexpr::from_str("0").unwrap() => None, r => Some(format!("0i32 serializes as {:?}, not the integer 0 the reader yields", r.map_err(|e| e.to_string()))) } }
+            26 => data_err(from_value::<St>(&list(vec![Value::cons(Value::from("a"), Value::from(1))])), "struct field named by a string"),
+            27 => data_err(from_value::<St>(&list(vec![Value::cons(Value::keyword("a"), Value::from(1))])), "struct field named by a keyword"),
+            28 => data_err(from_value::<E>(&list(vec![Value::from("U")])), "enum variant named by a string inside a list"),
+            29 => data_err(from_value::<E>(&Value::cons(Value::keyword("N"), Value::from(1))), "enum variant named by a keyword"),
+            30 => data_err(from_value::<BTreeMap<String, i32>>(&Value::append(vec![Value::cons(Value::from("a"), Value::from(1))], Value::from(5))), "alist with an improper tail as map"),
+            31 => data_err(from_value::<St>(&Value::append(vec![Value::cons(sym("a"), Value::from(1))], sym("end"))), "alist with an improper tail as struct"),
             11 => data_err(from_value::<Vec<u64>>(&Value::from(u64::MAX)), "the integer 2^64-1 as sequence"),
             12 => data_err(from_value::<Vec<u64>>(&Value::append(vec![Value::from(1), Value::from(2)], Value::from(u64::MAX))), "(1 2 . 18446744073709551615) as sequence"),
             13 => data_err(from_value::<(u64, u64)>(&Value::from(1u64 << 63)), "the integer 2^63 as tuple"),
